@@ -244,6 +244,133 @@ Theorem table_arity_fixed_witness :
 Proof. exact RoutesProofs.table_arity_fixed_witness. Qed.
 Print Assumptions table_arity_fixed_witness.
 
+(* ------------------------------------------------------------------------------------------------
+   array_int_minimum / array_int_maximum / sum_iter, table_2d / table_3d, element_2d / element_3d and the array
+   factories ints / ints_2d / ints_3d / bools / bools_2d / bools_3d (rstmt SArr).
+   RArrMin / RArrMax / RSumIter are `simple_ret` routes: result_bounds_cover, route_lower_denotes_ret,
+   route_sem_is_function, routes_lower_denotes and routes_model_solutions above cover them (calls_ok).
+   Known-defect classes added here:
+     kf_element_nd_index, kf_element_nd_dummy   element_2d / element_3d constrain only the linearised index   (C01/C02)
+     kf_table_nd_arity                          table_2d / table_3d bypass Model::table's arity validation     (C17) *)
+Theorem array_minimum_is_min : forall xs m, call (RArrMin xs) m = call (RMin xs) m.
+Proof. exact RoutesProofs.arr_min_is_min. Qed.
+Print Assumptions array_minimum_is_min.
+Theorem array_maximum_is_max : forall xs m, call (RArrMax xs) m = call (RMax xs) m.
+Proof. exact RoutesProofs.arr_max_is_max. Qed.
+Print Assumptions array_maximum_is_max.
+Theorem sum_is_sum_iter : forall xs m, call (RSum xs) m = call (RSumIter (map OV xs)) m.
+Proof. exact RoutesProofs.sum_is_sum_iter. Qed.
+Print Assumptions sum_is_sum_iter.
+
+(* table_2d / table_3d on the current tree: no panic, nothing recorded, and the posted Table propagators mean
+   exactly "every row is one of the tuples" — whatever the arities *)
+Theorem table2d_lower_denotes : forall mat ts m, rscoped (rnvars (rst m)) (RTable2D mat ts) ->
+  let m' := call_fixed (RTable2D mat ts) m in
+  rpanic m' = rpanic m /\ rverr m' = rverr m /\ rcallerr m' = rcallerr m /\ rpend m' = rpend m /\ ruser m' = ruser m /\
+  fst (rst m') = fst (rst m) /\
+  rexact (rst m) (rst m') (fun a => route_sem (RTable2D mat ts) 0%nat a = true).
+Proof. exact RoutesProofs.table2d_fixed_exact. Qed.
+Print Assumptions table2d_lower_denotes.
+Theorem table3d_lower_denotes : forall cube ts m, rscoped (rnvars (rst m)) (RTable3D cube ts) ->
+  let m' := call_fixed (RTable3D cube ts) m in
+  rpanic m' = rpanic m /\ rverr m' = rverr m /\ rcallerr m' = rcallerr m /\ rpend m' = rpend m /\ ruser m' = ruser m /\
+  fst (rst m') = fst (rst m) /\
+  rexact (rst m) (rst m') (fun a => route_sem (RTable3D cube ts) 0%nat a = true).
+Proof. exact RoutesProofs.table3d_fixed_exact. Qed.
+Print Assumptions table3d_lower_denotes.
+(* finding (C17): Model::table records InvalidConstraint for a tuple of the wrong arity, table_2d / table_3d post the
+   same propagator and record nothing *)
+Theorem table2d_arity_refuted : exists row ts decls,
+  kf_table_nd_arity (RTable2D [row] ts) = true /\ kf_table_nd_arity (RTable3D [[row]] ts) = true /\
+  rverr (rbuild_fixed (decls ++ [SCall (RTable row ts)])) = true /\
+  rverr (rbuild_fixed (decls ++ [SCall (RTable2D [row] ts)])) = false /\
+  rverr (rbuild_fixed (decls ++ [SCall (RTable3D [[row]] ts)])) = false /\
+  snd (rst (rbuild_fixed (decls ++ [SCall (RTable2D [row] ts)]))) = snd (rst (rbuild_fixed (decls ++ [SCall (RTable row ts)]))).
+Proof. exact RoutesProofs.table2d_arity_refuted. Qed.
+Print Assumptions table2d_arity_refuted.
+
+(* element_2d / element_3d: the call + the lowering of its pending index equation enforce exactly the
+   IMPLEMENTATION meaning element_nd_impl: the cell of the FLATTENED array at row * cols + col
+   (depth * rows * cols + row * cols + col) equals value *)
+Theorem element2d_lower_denotes : forall mat ri ci vl m, mat_cols mat <> 0%nat ->
+  rscoped (rnvars (rst m)) (RElement2D mat ri ci vl) ->
+  let n := rnvars (rst m) in let m' := call (RElement2D mat ri ci vl) m in
+  exists c, rpend m' = rpend m ++ [CB c] /\ ruser m' = ruser m /\ rpanic m' = rpanic m /\ rverr m' = rverr m /\ rcallerr m' = rcallerr m /\
+    rexact (rst m) (rmaterialize (CB c) (rst m')) (element_nd_impl (concat mat) (idx2 ri ci (mat_cols mat)) vl n).
+Proof. exact RoutesProofs.element2d_lower_exact. Qed.
+Print Assumptions element2d_lower_denotes.
+Theorem element3d_lower_denotes : forall cube di ri ci vl m, cube_rows cube <> 0%nat -> cube_cols cube <> 0%nat ->
+  rscoped (rnvars (rst m)) (RElement3D cube di ri ci vl) ->
+  let n := rnvars (rst m) in let m' := call (RElement3D cube di ri ci vl) m in
+  exists c, rpend m' = rpend m ++ [CB c] /\ ruser m' = ruser m /\ rpanic m' = rpanic m /\ rverr m' = rverr m /\ rcallerr m' = rcallerr m /\
+    rexact (rst m) (rmaterialize (CB c) (rst m'))
+      (element_nd_impl (concat (concat cube)) (idx3 di ri ci (cube_rows cube) (cube_cols cube)) vl n).
+Proof. exact RoutesProofs.element3d_lower_exact. Qed.
+Print Assumptions element3d_lower_denotes.
+(* outside the class kf_element_nd_index (rectangular matrix, column index inside 0 .. cols - 1) the implementation
+   meaning IS the documented one, matrix[row][col] == value *)
+Theorem element2d_meaning : forall mat ri ci vl n a, mat_cols mat <> 0%nat -> rect mat = true ->
+  0 <= a ci < Z.of_nat (mat_cols mat) -> a n = a ri * Z.of_nat (mat_cols mat) + a ci ->
+  (element_nd_impl (concat mat) (idx2 ri ci (mat_cols mat)) vl n a <-> route_sem (RElement2D mat ri ci vl) 0%nat a = true).
+Proof. exact RoutesProofs.element2d_meaning. Qed.
+Print Assumptions element2d_meaning.
+(* inside it: genuine counterexamples (the lowered model accepts an assignment the documented meaning rejects) *)
+Theorem element2d_index_refuted : exists prog r s ps a,
+  r = RElement2D [[0%nat; 1%nat]; [2%nat; 3%nat]] 4%nat 5%nat 6%nat /\ prog = prog_2x2 0 2 r /\
+  kf_element_nd_index r [[0]; [0]; [1]; [0]; [0]; [2]; [0; 1]] = true /\
+  lowered_of prog = Some (s, ps) /\ rvalidate s ps = None /\ inst a s /\ rallsatb ps a = true /\ route_sem r 0%nat a = false.
+Proof. exact RoutesProofs.element2d_index_refuted. Qed.
+Print Assumptions element2d_index_refuted.
+Theorem element2d_negative_col_refuted : exists prog r s ps a,
+  r = RElement2D [[0%nat; 2%nat]; [1%nat; 3%nat]] 4%nat 5%nat 6%nat /\ prog = prog_2x2 1 (-1) r /\
+  lowered_of prog = Some (s, ps) /\ rvalidate s ps = None /\ inst a s /\ rallsatb ps a = true /\ route_sem r 0%nat a = false.
+Proof. exact RoutesProofs.element2d_negative_col_refuted. Qed.
+Print Assumptions element2d_negative_col_refuted.
+Theorem element2d_ragged_refuted : exists prog r r' s ps a s' ps' a',
+  r = RElement2D [[0%nat]; [1%nat; 2%nat]] 4%nat 5%nat 6%nat /\ prog = prog_2x2 2 0 r /\
+  kf_element_nd_index r [[0]; [0]; [1]; [0]; [2]; [0]; [0; 1]] = true /\
+  lowered_of prog = Some (s, ps) /\ inst a s /\ rallsatb ps a = true /\ route_sem r 0%nat a = false /\
+  r' = RElement2D [[]; [2%nat; 3%nat]] 4%nat 5%nat 6%nat /\ kf_element_nd_dummy r' = true /\
+  lowered_of (prog_2x2 1 0 r') = Some (s', ps') /\ inst a' s' /\ rallsatb ps' a' = true /\ route_sem r' 0%nat a' = false.
+Proof. exact RoutesProofs.element2d_ragged_refuted. Qed.
+Print Assumptions element2d_ragged_refuted.
+Theorem element3d_index_refuted : exists prog r s ps a,
+  r = RElement3D [[[0%nat; 1%nat]; [2%nat; 3%nat]]; [[4%nat; 5%nat]; [6%nat; 7%nat]]] 8%nat 9%nat 10%nat 11%nat /\
+  prog = [SArr [2%nat; 2%nat; 2%nat] 0 1; SB (SInt 0 0); SB (SInt 2 2); SB (SInt 0 0); SB (SInt 0 1); SCall r] /\
+  lowered_of prog = Some (s, ps) /\ kf_element_nd_index r s = true /\ rvalidate s ps = None /\
+  inst a s /\ rallsatb ps a = true /\ route_sem r 0%nat a = false.
+Proof. exact RoutesProofs.element3d_index_refuted. Qed.
+Print Assumptions element3d_index_refuted.
+
+(* the array factories create prod(dims) handles, each with the ORDERED bounds (Model::new_vars swaps them;
+   Model::int does not: ints(2, 3, 1) gives two variables 1..3, int(3, 1) the empty domain) *)
+Theorem factory_creates : forall dims lo hi m,
+  exec_arr dims lo hi m = repeat_m (nprod dims) (declare_r (arr_dom lo hi)) m.
+Proof. exact RoutesProofs.exec_arr_flat. Qed.
+Print Assumptions factory_creates.
+Theorem factory_bounds_ordered : forall lo hi, arr_dom lo hi = drange (Z.min lo hi) (Z.max lo hi).
+Proof. exact RoutesProofs.arr_dom_ordered. Qed.
+Print Assumptions factory_bounds_ordered.
+Theorem ints_swaps_bounds :
+  fst (rst (rbuild [SArr [2%nat] 3 1])) = [[1; 2; 3]; [1; 2; 3]] /\ fst (rst (rbuild [SB (SInt 3 1)])) = [[]].
+Proof. exact RoutesProofs.ints_swaps_bounds. Qed.
+Print Assumptions ints_swaps_bounds.
+
+(* behaviour after the PROPOSED repairs fixes/routes_ext/routes_table_nd_arity.patch and routes_element_nd_index.patch
+   (Model/Routes.v call_ext_fixed / rbuild_ext_fixed; NOT the current tree): the former witnesses are rejected *)
+Theorem element2d_ext_fixed_rejects : exists s ps,
+  rlower (rbuild_ext_fixed (prog_2x2 0 2 (RElement2D [[0%nat; 1%nat]; [2%nat; 3%nat]] 4%nat 5%nat 6%nat))) = RLOk s ps /\
+  ps = [PB (PLeq (VConst 0) (VVar 5)); PB (PLeq (VVar 5) (VConst 1)); PElement [0%nat; 1%nat; 2%nat; 3%nat] 7 6; PB (PLinEq [2; 1; -1] [4%nat; 5%nat; 7%nat] 0)] /\
+  rallsatb ps (asgl [0; 0; 1; 0; 0; 2; 1; 2]) = false /\
+  rverr (rbuild_ext_fixed (prog_2x2 2 0 (RElement2D [[0%nat]; [1%nat; 2%nat]] 4%nat 5%nat 6%nat))) = true.
+Proof. exact RoutesProofs.element2d_ext_fixed_rejects. Qed.
+Print Assumptions element2d_ext_fixed_rejects.
+Theorem table2d_ext_fixed_records :
+  rverr (rbuild_ext_fixed [SB (SInt 0 2); SB (SInt 0 2); SCall (RTable2D [[0%nat; 1%nat]] [[0; 1; 2]; [1; 2]])]) = true /\
+  rverr (rbuild_ext_fixed [SB (SInt 0 2); SB (SInt 0 2); SCall (RTable3D [[[0%nat; 1%nat]]] [[0; 1; 2]; [1; 2]])]) = true.
+Proof. exact RoutesProofs.table2d_ext_fixed_records. Qed.
+Print Assumptions table2d_ext_fixed_records.
+
 (* ---- non-vacuity: a program mixing arithmetic, global, reified and boolean routes lies inside calls_ok;
    its lowering is the dump the tie compares ---- *)
 Example routes_example_ok :
